@@ -33,11 +33,17 @@ def run(tier, replay=None):
         res.violation("sanitized harness does not compile against the working tree", {"kind": "compile", "log": log[-3000:]}, found=False); return res.finish()
     cases = {"d%d" % i: c for i, c in enumerate(DEGENERATE)}
     cases.update(graph_cases(r, tier, 60 if tier == "quick" else 1200, 11 if tier == "quick" else 28, small_exhaustive=3))
+    # integer weights of the order of 10^6 (sums stay far below 2^31): products of a weight with a stretch factor, a hop bound
+    # or a count — which the library has no reason to form — would leave the int range
+    for i in range(12 if tier == "quick" else 200):
+        n, E, tag = random_graph(r, 10)
+        cases["bi%d" % i] = (n, [(u, v, r.randint(1000000, 2000000)) for (u, v) in E], 0, "big-int-weights")
     plan = [("forest", []), ("fvs", []), ("trees", []), ("cands", ["horton"]), ("cands", ["fvs"]), ("cands", ["iso"]), ("spanner", [2])] + \
            [("exact", [v]) for v in ("signed", "fvs", "iso", "signed_tbb", "fvs_tbb", "iso_tbb")] + \
-           [("approx", [v, k]) for v in ("signed", "fvs", "iso", "signed_tbb", "fvs_tbb", "iso_tbb") for k in (1, 2)]
+           [("approx", [v, k]) for v in ("signed", "fvs", "iso", "signed_tbb", "fvs_tbb", "iso_tbb") for k in (1, 2)] + \
+           [("approx", [v, k]) for v in ("signed", "fvs", "iso_tbb") for k in (1000, 2 ** 30 + 1)]
     for kind, args in plan:
-        for wt in (("d", "i") if kind == "exact" else ("d",)):
+        for wt in (("d", "i") if kind in ("exact", "approx") else ("d",)):
             sub = {cid: c for cid, c in cases.items() if wt == "d" or c[2] == 0}
             rc, out, err = run_graph_kind(bg, kind, sub, wt_of=lambda cid, wt=wt: wt, args_of=lambda cid, args=args: args, timeout=3000)
             kinds_run["%s %s %s" % (kind, args, wt)] = len(sub)
